@@ -813,3 +813,33 @@ Proof.
   unfold lexical_order, sltb. destruct (sleb b a) eqn:E; cbn; [auto|].
   split; [|auto]. unfold sleb in *. destruct (lleb_total (bytes_of a) (bytes_of b)); congruence.
 Qed.
+
+(* ================================================================== 4. several writes; listing; store *)
+Lemma run_seq_pure step (f : api -> mem -> wres) l m :
+  (forall a m0, step a m0 = (f a m0, m0)) -> run_seq step l m = (map (fun a => f a m) l, m).
+Proof.
+  intros H. induction l as [|a l IH]; [reflexivity|]. cbn [run_seq map]. rewrite H, IH. reflexivity.
+Qed.
+
+Lemma write_seq_spec cast l m : write_seq cast l m = (map (fun a => write_api cast a m) l, m).
+Proof. unfold write_seq. apply run_seq_pure. reflexivity. Qed.
+
+Lemma substring_app_prefix (a b : string) : substring 0 (String.length a) (a ++ b) = a.
+Proof.
+  induction a as [|c a IH]; cbn.
+  - destruct b; reflexivity.
+  - rewrite IH. reflexivity.
+Qed.
+
+Lemma id_of_member_spec ext name : id_of_member ext (name ++ ext) = Some name.
+Proof.
+  unfold id_of_member. rewrite suffixb_app, slength_app.
+  replace (String.length name + String.length ext - String.length ext)%nat with (String.length name) by lia.
+  rewrite substring_app_prefix. reflexivity.
+Qed.
+
+Lemma fs_read_same k bs f : fs_read k (fs_write k bs f) = Some bs.
+Proof. cbn. rewrite String.eqb_refl. reflexivity. Qed.
+
+Lemma fs_read_other k k' bs f : k <> k' -> fs_read k (fs_write k' bs f) = fs_read k f.
+Proof. intros N. cbn. apply String.eqb_neq in N. rewrite N. reflexivity. Qed.
